@@ -1,4 +1,5 @@
 import Chain33Model.Proofs.C09
+import Chain33Model.Proofs.C09Bridge
 /-!
 C09 — Versioned reads return the right key at the right version.  Property theorems only.
 
@@ -68,6 +69,19 @@ theorem getV_correct_partial (K : List Bytes) (db : DB) (k : Bytes) (v : Nat)
     simp
     exact hi
 
+/-- The reverse seek of `GetV` is not a separate re-model: on the store seen as a C06 ordered map
+(bytes as UInt8), `ListHelper.List(prefix, key, 1, ListSeek)` as modelled in C07 — `nextKeyValue`
+over the `goLevelDBIt` wrapper `C06.Iter`: reverse iterator on `[prefix, bytesPrefix prefix)`,
+`Seek(key)`, step over deleted values — returns exactly the record `seekRev` returns (C07.list_seek
+is the iterator-level theorem; this is the bridge to the closed form used in the theorems here). -/
+theorem getV_seek_is_list_seek (db : DB) (k : Bytes) (v : Nat) (hs : Sorted db) (hsm : SmallDB db)
+    (hk : Small k) :
+    C07.listPlain (embed db) (u8 (keyPrefix k)) (u8 (getKey k v)) 1 C07.ListSeek =
+      some (match seekRev db (keyPrefix k) (getKey k v) with
+            | some e => [u8 e.1, u8 e.2]
+            | none => []) :=
+  seekRev_is_list_seek db k v hs hsm hk
+
 /-- non-vacuity: a store with two keys sharing a prefix ("a", "a!") and three versions meets the
 hypotheses, and the read is a real value. -/
 example :
@@ -92,6 +106,13 @@ theorem witnessA_wf : WF [[97], [97, 46, 33]] witnessA := by
   rcases he with h | h <;> subst h
   · exact ⟨[97, 46, 33], by simp, 3, by decide, rfl⟩
   · exact ⟨[97], by simp, 9, by decide, rfl⟩
+
+/-- non-vacuity of the bridge: the S-C09a store is a small sorted store and the seek of
+`GetV("a", 5)` lands on the record of "a.!" in both models. -/
+example :
+    Sorted witnessA ∧ SmallDB witnessA ∧ Small [97] ∧
+    seekRev witnessA (keyPrefix [97]) (getKey [97] 5) = some (getKey [97, 46, 33] 3, [120]) := by
+  decide
 
 /-- REFUTED: the full statement is false of the model (and of the code: corpus/C09/s_c09a.ops):
 `GetV("a", 5)` returns the value written under "a.!" although "a" has no write at or below 5. -/
@@ -433,6 +454,94 @@ example :
     SepFree [[97], [98]] ∧ NoEmpty db ∧
     iterDelLast (applyAdd db 1 [([97], [122])]) 1 [[97]] (lastAdd (lastAdd [] [([97], [120]), ([98], [121])]) [([97], [122])])
       = .ok [([97], [120]), ([98], [121])] := by
+  decide
+
+/-! ### 3c. StateDB.Get with MVCC enabled (`stateGet` = version of the state hash, then `GetV`) -/
+
+theorem assocGet_set_self {β : Type} (l : List (Bytes × β)) (a : Bytes) (b : β) :
+    assocGet (assocSet l a b) a = some b := by
+  simp [assocGet, assocSet]
+
+theorem assocGet_set_other {β : Type} (l : List (Bytes × β)) (a : Bytes) (b : β) (h : Bytes) (hne : h ≠ a) :
+    assocGet (assocSet l a b) h = assocGet l h := by
+  have h1 : (a == h) = false := by simpa using fun e => hne e.symm
+  simp only [assocGet, assocSet, List.find?, h1, List.find?_filter]
+  congr 2
+  funext x
+  by_cases hx : x.1 = h
+  · simp [hx, hne]
+  · simp [hx]
+
+/-- A successful `AddMVCC(kvs, hash, prev, ver)` records `hash ↦ ver` — the version `StateDB` will
+read at for that state hash — leaves the version of every other hash alone, and writes exactly the
+data records of `kvs` at version `ver`. -/
+theorem add_records_version (s s' : State) (ver : Nat) (hash : Bytes) (prev : Option Bytes)
+    (kvs : List (Bytes × Bytes)) (h : add s ver hash prev kvs = (s', .ok)) :
+    assocGet s'.verOf hash = some ver ∧ (∀ h', h' ≠ hash → assocGet s'.verOf h' = assocGet s.verOf h') ∧
+      s'.data = applyAdd s.data ver kvs := by
+  have fin : ∀ t : State, t = { s with data := applyAdd s.data ver kvs, verOf := assocSet s.verOf hash ver, hashAt := assocSet s.hashAt ver hash, keyList := assocSet s.keyList ver (kvs.map (·.1)) } →
+      assocGet t.verOf hash = some ver ∧ (∀ h', h' ≠ hash → assocGet t.verOf h' = assocGet s.verOf h') ∧
+        t.data = applyAdd s.data ver kvs := by
+    intro t ht
+    subst ht
+    exact ⟨assocGet_set_self _ _ _, fun h' hne => assocGet_set_other _ _ _ h' hne, rfl⟩
+  unfold add at h
+  simp only at h
+  split at h
+  · split at h
+    · simp at h
+    · split at h
+      · simp at h
+      · split at h
+        · simp only [Prod.mk.injEq, and_true] at h; exact fin s' h.symm
+        · simp at h
+  · simp only [Prod.mk.injEq, and_true] at h; exact fin s' h.symm
+
+/-- FULL statement for the `StateDB.Get` observation point: a read through the state hash recorded
+at version `v` answers the most recent write at a version ≤ `v` (an unknown hash: not-found). -/
+def stateGet_correct_full : Prop :=
+  ∀ (K : List Bytes) (s : State) (hash k : Bytes) (v : Nat),
+    WF K s.data → k ∈ K → v < 2 ^ 63 → assocGet s.verOf hash = some v →
+    stateGet s hash k = specResult s.data k v
+
+/-- PARTIAL (same added hypotheses as `getV_correct_partial`: `SepFree K`, no empty values). -/
+theorem stateGet_correct_partial (K : List Bytes) (s : State) (hash k : Bytes) (v : Nat)
+    (hwf : WF K s.data) (hk : k ∈ K) (hv : v < 2 ^ 63) (hver : assocGet s.verOf hash = some v)
+    (hsep : SepFree K) (hne : NoEmpty s.data) :
+    stateGet s hash k = specResult s.data k v := by
+  unfold stateGet
+  rw [hver]
+  exact getV_correct_partial K s.data k v hwf hk hv hsep hne
+
+theorem stateGet_unknown_hash (s : State) (hash k : Bytes) (h : assocGet s.verOf hash = none) :
+    stateGet s hash k = .notfound := by
+  unfold stateGet; rw [h]
+
+/-- A state hash keeps answering the same after newer versions were added: the specification
+read at version `v < n` does not see the records of version `n` (so, with the theorem above, a
+`StateDB` opened at an old state hash reads the old state). -/
+theorem specResult_stable_under_add (db : DB) (n : Nat) (kvs : List (Bytes × Bytes)) (k : Bytes)
+    (v : Nat) (hn : n < 2 ^ 63) (hv : v < n) :
+    specResult (applyAdd db n kvs) k v = specResult db k v := by
+  unfold specResult
+  rw [specRead_applyAdd_older db n kvs k hn v hv]
+
+/-- REFUTED (S-C09a through StateDB): on the store of `witnessA`, reading "a" through a state hash
+recorded at version 5 returns the value of "a.!". -/
+theorem stateGet_correct_full_false : ¬ stateGet_correct_full := by
+  intro h
+  have := h [[97], [97, 46, 33]] { data := witnessA, verOf := [([1], 5)] } [1] [97] 5 witnessA_wf
+    (by simp) (by decide) (by decide)
+  revert this
+  decide
+
+/-- non-vacuity: two versions added through `add` with their state hashes; the read through the
+first hash sees version 0 only, the read through the second sees version 1. -/
+example :
+    let s1 := (add {} 0 [1] none [([97], [120])]).1
+    let s2 := (add s1 1 [2] (some [1]) [([97], [121])]).1
+    (add s1 1 [2] (some [1]) [([97], [121])]).2 = .ok ∧
+    stateGet s2 [1] [97] = .val [120] ∧ stateGet s2 [2] [97] = .val [121] ∧ stateGet s2 [3] [97] = .notfound := by
   decide
 
 /-! ### 4. garbage collection -/
